@@ -24,9 +24,14 @@ def typed(st, t, k):
         return [is_VBool(t)]
     if h == "none":
         return [t == VNone]
-    if h in ("list", "vtuple"):
+    if h == "vtuple":
+        # immutable variable-length tuple: the value seq_of(len, elems)
+        return [t == seq_of(seq_len(t), seq_els(t)), seq_len(t) >= 0, normalized(seq_len(t), seq_els(t))]
+    if h == "list":
         return [is_VRef(t), ref(t) >= 0, ref(t) < st.alloc, z3.Select(st.H("llen"), ref(t)) >= 0,
                 normalized(z3.Select(st.H("llen"), ref(t)), z3.Select(st.H("lel"), ref(t)))]
+    if h == "iter":
+        return [is_VRef(t), ref(t) >= 0, ref(t) < st.alloc]
     if h in ("set", "dict"):
         return [is_VRef(t), ref(t) >= 0, ref(t) < st.alloc]
     if h == "obj":
@@ -37,7 +42,7 @@ def typed(st, t, k):
         ids = sorted(st.uni.class_id(c) for c in st.uni.subclasses(k[1]) if c in st.uni.val_classes)
         return [is_VCon(t), z3.Or([tag(t) == i for i in ids])]
     if h == "tuple":
-        return [is_VCon(t), tag(t) == -len(k[1:])]
+        return [t == seq_of(seq_len(t), seq_els(t)), seq_len(t) == len(k[1:]), normalized(seq_len(t), seq_els(t))]
     if h == "opaque":
         return [t != VNone]
     if h == "opt":
@@ -169,6 +174,36 @@ def l_el(st, r):
 
 def l_get(st, r, i):
     return z3.Select(l_el(st, r), i)
+
+
+class TupHeap:
+    """read-only pseudo-heap through which a tuple value seq_of(n, elems) is read with the list interface:
+    every reference reads the tuple's own length / contents"""
+
+    def __init__(self, t, st):
+        self.t = t
+        self.uni = st.uni
+        self.alloc = st.alloc
+        self.typed_seen = set()
+
+    def H(self, comp):
+        if comp == "llen":
+            return z3.K(IntS, seq_len(self.t))
+        if comp == "lel":
+            return z3.K(IntS, seq_els(self.t))
+        raise KeyError(comp)
+
+
+def seq_len_of(st, sv_t, kind_head):
+    if kind_head == "vtuple":
+        return seq_len(sv_t)
+    return l_len(st, ref(sv_t))
+
+
+def seq_el_of(st, sv_t, kind_head):
+    if kind_head == "vtuple":
+        return seq_els(sv_t)
+    return l_el(st, ref(sv_t))
 
 
 def alloc_ref(st, clsid=0):
